@@ -31,7 +31,8 @@ MP = "eko.io.manipulate"
 NP, NX = 2, 2
 
 
-def sym_op(name, npid=NP, nx=NX):
+def sym_op(name, npid=None, nx=None):
+    npid, nx = npid or NP, nx or NX
     return Arr.from_nested([[[[dag.sym(f"{name}_{a}{j}{b}{k}") for k in range(nx)] for b in range(npid)] for j in range(nx)] for a in range(npid)])
 
 
@@ -59,6 +60,8 @@ def matvec_pid(T, v):
 
 
 def run(chk):
+    global NP, NX
+    NP, NX = (3, 3) if chk.tier == "thorough" else (2, 2)
     src = load()
     chk.rule_text = "reshape(O) applied to the rotated input == rotation of (O applied to the input); grid forms == M_out . O . M_in by provenance"
     ffl = src.func(f"{MP}.flavor_reshape")
